@@ -91,6 +91,45 @@ def tidy(prog):
     return out
 
 
+def lowbase(prog, new=100, old=BASE):
+    """the same file moved to page 0, with the immediates of LD A,n / DEFB / DEFS equal to addresses of its own
+    instruction lines: there an 8-bit operand merely equals an address, a 16-bit one names the instruction"""
+    import copy
+    d = old - new
+    p = copy.deepcopy(prog)
+
+    def tok(t):
+        if t['t'] >= d:
+            t['t'] -= d
+        if t['k'] in ('ld8', 'defb', 'defs'):
+            t['a'] = new + t['a'] % 24
+
+    def line(ln):
+        k = ln['l']
+        if k == 'ins':
+            if ln['addr'] >= 0:
+                ln['addr'] -= d
+            tok(ln['tok'])
+        elif k == 'sub':
+            tok(ln['tok'])
+        elif k == 'rem':
+            ln['a1'] -= d
+            ln['a2'] -= d
+        elif k == 'org' and ln['v'] >= 0:
+            ln['v'] -= d
+        elif k == 'data':
+            if ln['addr'] >= 0:
+                ln['addr'] -= d
+            if ln['d'] == 'defw':
+                ln['vals'] = [v - d if v >= d else v for v in ln['vals']]
+        elif k == 'if':
+            line(ln['yes'])
+            line(ln['no'])
+    for ln in p:
+        line(ln)
+    return p
+
+
 # ------------------------------------------------------------------ rendering
 def num(rnd, v, width=0):
     if rnd is not None and rnd.random() < 0.35:
@@ -386,12 +425,12 @@ def has_data(prog):
     return any(ln['l'] == 'data' for ln in prog)
 
 
-def observe(prog, key, gen, wd, idx, rnd, modes, vectors, html_too=True, probe=0, base=BASE):
+def observe(prog, key, gen, wd, idx, rnd, modes, vectors, html_too=True, probe=0, base=BASE, text=None):
     """run everything on one abstract file; -> list of cases (one per mode)"""
     cbuild.repo_only()
     from skoolkit.z80 import Assembler
     assembler = Assembler()
-    text = render(prog, rnd, base)
+    text = text or render(prog, rnd, base)
     path = os.path.join(wd, 'p%d.skool' % idx)
     outf = os.path.join(wd, 'p%d.bin' % idx)
     with open(path, 'w') as f:
@@ -527,7 +566,12 @@ FIXED = ('BIT 7,A', 'RES 0,(HL)', 'SET 3,B', 'IM 0', 'IM 1', 'IM 2', 'RST 0', 'R
          'IN F,(C)', 'EX AF,AF\'', 'LD A,"1"', 'LD A,"$"', 'CP "%"', 'DEFM "10 $20 %11"', 'DEFB "1,2",3', 'DEFM "a;b",";"',
          'DEFB %101,%11', 'DEFB 5%3', 'DEFB 7/2,3*4', 'LD A,%1010+1', 'DEFB "\\"",1', 'DEFM "a\\\\",0', 'DEFS 3', 'DEFS 2,$FF',
          'DEFS %11,"x"', 'LD A,(IX+0)', 'LD B,(IY-128)', 'LD (IX+127),255', 'DEFB 1-1,2-1', 'DEFW 65535,0', 'LD A,-1', 'LD BC,-1',
-         'DEFB -1', 'DEFB "a"+128', 'SLL (IX+5),C', 'DEFM "Ab Cd"', 'DEFB "H","l"', 'LD A,I', 'ADD IX,IX', 'JP (HL)', 'LD IXl,IXh')
+         'DEFB -1', 'DEFB "a"+128', 'SLL (IX+5),C', 'DEFM "Ab Cd"', 'DEFB "H","l"', 'LD A,I', 'ADD IX,IX', 'JP (HL)', 'LD IXl,IXh',
+         'LD A," "', 'CP ","', 'LD A,";"', 'DEFB ";",";"', 'DEFM "-1"', 'LD A,"("', 'LD A,(IX+"a")', 'DEFB "$"+1', 'LD (IX+$0A),$0B',
+         'DEFW "a"', 'DEFW %1111111100000000', 'LD HL,"a"*256', 'DEFB 1, 2 ,3', 'DEFB  5', 'DEFM "(1)",1', 'DEFB "1","2",3',
+         'LD B,"0"+1', 'DEFB 10/3,10%3', 'DEFW 1+2*3', 'DEFB (1+2)*3', 'LD A,(1+2)', 'LD A,+1', 'DEFB +7', 'AND %11110000',
+         'OR "a"', 'RST %1000', 'IN A,($FE)', 'OUT (254),A', 'IM  1', 'BIT  7 , A', 'ld ixl,$1f', 'defm "MiXed"', 'DEFB $aB,$Cd',
+         'LD DE,$abcd', 'JP $0008', 'CALL 56', 'DEFS 4,%101', 'DEFS $02', 'DEFB "a"-"A"', 'LD (IY+%101),1', 'BIT 0,(IX+"1")')
 
 
 def spell(rnd, v):
